@@ -407,9 +407,9 @@ theorem onRun_fifo (k : CS → Oracle → List Out → Option Time → PA) (rest
     Fifo (a :: rest) out (onRun k rest c a o out tmo left) := by
   unfold onRun
   dsimp only
-  have hIL := innerLoop_noFinish c.env.now 64 { c.dev with wake := none } a o [] (by simp)
-  have hIC := innerLoop_clientId c.env.now 64 { c.dev with wake := none } a o []
-  generalize innerLoop c.env.now 64 { c.dev with wake := none } a o [] = r at *
+  have hIL := innerLoop_noFinish c.env.now (loopBound a) { c.dev with wake := none } a o [] (by simp)
+  have hIC := innerLoop_clientId c.env.now (loopBound a) { c.dev with wake := none } a o []
+  generalize innerLoop c.env.now (loopBound a) { c.dev with wake := none } a o [] = r at *
   have hadv := advance_clientId r.act
   generalize advance r.act = a' at *
   have h0 := finishesOf_noFinish r.out hIL
@@ -471,7 +471,7 @@ theorem processActionF_fifo_prefix (fuel : Nat) (c : CS) (o : Oracle) (out : Lis
 /-- one iteration of `onRun` with a flag (`true` = the loop goes on) in place of the continuation -/
 def onRunStep (rest : List Action) (c : CS) (a : Action) (o : Oracle) (out : List Out) (tmo : Option Time) (left : Time) : PA × Bool :=
   let d := c.dev
-  let r := innerLoop c.env.now 64 { d with wake := none } a o []
+  let r := innerLoop c.env.now (loopBound a) { d with wake := none } a o []
   let out := out ++ r.out
   if hasAbort r.out then
     (({ c with dev := { r.dev with acts := r.act :: rest }, aborted := true }, r.oracle, out, tmo), false) else
@@ -586,10 +586,10 @@ theorem onTimeout_sents (rest : List Action) (c : CS) (a : Action) (o : Oracle) 
 
 theorem onRunStep_sents (rest : List Action) (c : CS) (a : Action) (o : Oracle) (out : List Out) (tmo : Option Time) (left : Time) :
     sentsOf (onRunStep rest c a o out tmo left).1.2.2.1 =
-      sentsOf out ++ sentsOf (innerLoop c.env.now 64 { c.dev with wake := none } a o []).out := by
+      sentsOf out ++ sentsOf (innerLoop c.env.now (loopBound a) { c.dev with wake := none } a o []).out := by
   unfold onRunStep
   dsimp only
-  generalize innerLoop c.env.now 64 { c.dev with wake := none } a o [] = r
+  generalize innerLoop c.env.now (loopBound a) { c.dev with wake := none } a o [] = r
   split
   · simp
   · split
@@ -615,7 +615,7 @@ def speaker (c : CS) : Option Action :=
 /-- what the statement interpreter emits in this iteration: `innerLoop` applied to the speaker -/
 def spoken (c : CS) (o : Oracle) : List Out :=
   match speaker c with
-  | some a => (innerLoop c.env.now 64 { c.dev with wake := none } a o []).out
+  | some a => (innerLoop c.env.now (loopBound a) { c.dev with wake := none } a o []).out
   | none => []
 
 /-- the speaker is the head of the queue (by definition; stated for the record) -/
@@ -683,8 +683,8 @@ theorem onRunStep_loginHead (rest : List Action) (c : CS) (a : Action) (o : Orac
     LoginHead (onRunStep rest c a o out tmo left).1.1.dev := by
   unfold onRunStep at hgo ⊢
   dsimp only at hgo ⊢
-  have hL := innerLoop_link c.env.now 64 { c.dev with wake := none } a o []
-  generalize innerLoop c.env.now 64 { c.dev with wake := none } a o [] = r at *
+  have hL := innerLoop_link c.env.now (loopBound a) { c.dev with wake := none } a o []
+  generalize innerLoop c.env.now (loopBound a) { c.dev with wake := none } a o [] = r at *
   have hadv := advance_com r.act
   generalize advance r.act = a' at *
   obtain ⟨⟨hconn, hlog⟩, hcom⟩ := hL
@@ -769,9 +769,9 @@ theorem login_speaks_first (fuel : Nat) (c : CS) (o : Oracle) (out : List Out) (
     not yet over) ends the run: no later action is looked at in this pass, and the head keeps its place -/
 theorem bodyStep_stalled (c : CS) (o : Oracle) (out : List Out) (tmo : Option Time) (a : Action)
     (hs : speaker c = some a)
-    (hst : (innerLoop c.env.now 64 { c.dev with wake := none } a o []).finished = false) :
+    (hst : (innerLoop c.env.now (loopBound a) { c.dev with wake := none } a o []).finished = false) :
     (bodyStep c o out tmo).2 = false ∧
-    (bodyStep c o out tmo).1.1.dev.acts = (innerLoop c.env.now 64 { c.dev with wake := none } a o []).act :: c.dev.acts.tail := by
+    (bodyStep c o out tmo).1.1.dev.acts = (innerLoop c.env.now (loopBound a) { c.dev with wake := none } a o []).act :: c.dev.acts.tail := by
   obtain ⟨a0, rest, hacts, ha, hc, hab⟩ := speaker_is_head c a hs
   have ht : ¬ c.env.now ≥ (stamp c.env.now a0).timeStamp.getD c.env.now + c.dev.timeout := by
     intro ht
@@ -785,7 +785,7 @@ theorem bodyStep_stalled (c : CS) (o : Oracle) (out : List Out) (tmo : Option Ti
   rw [hb, hacts]
   unfold onRunStep
   dsimp only
-  generalize innerLoop c.env.now 64 { c.dev with wake := none } (stamp c.env.now a0) o [] = r at *
+  generalize innerLoop c.env.now (loopBound (stamp c.env.now a0)) { c.dev with wake := none } (stamp c.env.now a0) o [] = r at *
   split
   · exact ⟨rfl, rfl⟩
   · simp [hst]
@@ -1061,13 +1061,13 @@ theorem BufStop.of_bufStep {d : Dev} {b : Bytes} {p : PA} (h : BufStep d b p.1.d
   · exact Or.inr ⟨rfl, h⟩
 
 theorem onRunStep_buf (rest : List Action) (c : CS) (a : Action) (o : Oracle) (out : List Out) (tmo : Option Time) (left : Time) :
-    BufStop c.dev (sentBytes (innerLoop c.env.now 64 { c.dev with wake := none } a o []).out)
+    BufStop c.dev (sentBytes (innerLoop c.env.now (loopBound a) { c.dev with wake := none } a o []).out)
       (onRunStep rest c a o out tmo left) := by
   unfold onRunStep
   dsimp only
-  obtain ⟨new, hn1, hn2, hn3⟩ := innerLoop_buf c.env.now 64 { c.dev with wake := none } a o []
-  have hL := (innerLoop_link c.env.now 64 { c.dev with wake := none } a o []).1.conn
-  generalize innerLoop c.env.now 64 { c.dev with wake := none } a o [] = r at *
+  obtain ⟨new, hn1, hn2, hn3⟩ := innerLoop_buf c.env.now (loopBound a) { c.dev with wake := none } a o []
+  have hL := (innerLoop_link c.env.now (loopBound a) { c.dev with wake := none } a o []).1.conn
+  generalize innerLoop c.env.now (loopBound a) { c.dev with wake := none } a o [] = r at *
   simp only [List.nil_append] at hn1
   subst hn1
   simp only at hn2 hn3 hL
@@ -1091,7 +1091,7 @@ theorem onRunStep_buf (rest : List Action) (c : CS) (a : Action) (o : Oracle) (o
 theorem spoken_none (c : CS) (o : Oracle) (h : speaker c = none) : spoken c o = [] := by
   unfold spoken; rw [h]
 theorem spoken_some (c : CS) (o : Oracle) (a : Action) (h : speaker c = some a) :
-    spoken c o = (innerLoop c.env.now 64 { c.dev with wake := none } a o []).out := by
+    spoken c o = (innerLoop c.env.now (loopBound a) { c.dev with wake := none } a o []).out := by
   unfold spoken; rw [h]
 
 /-- the five ways one iteration can go -/
@@ -1501,8 +1501,8 @@ theorem onRunStep_freshLink (rest : List Action) (c : CS) (a : Action) (o : Orac
     (left : Time) (hc : c.dev.conn = 2) : FreshLink (onRunStep rest c a o out tmo left).1.1.dev := by
   unfold onRunStep
   dsimp only
-  have hL := (innerLoop_link c.env.now 64 { c.dev with wake := none } a o []).1.conn
-  generalize innerLoop c.env.now 64 { c.dev with wake := none } a o [] = r at *
+  have hL := (innerLoop_link c.env.now (loopBound a) { c.dev with wake := none } a o []).1.conn
+  generalize innerLoop c.env.now (loopBound a) { c.dev with wake := none } a o [] = r at *
   simp only at hL
   have h2 : r.dev.conn = 2 := by rw [hL, hc]
   split
@@ -1844,9 +1844,9 @@ theorem onRunStep_ncl (rest : List Action) (c : CS) (a : Action) (o : Oracle) (o
     NoClientLogin (onRunStep rest c a o out tmo left).1.1.dev := by
   unfold onRunStep
   dsimp only
-  have hL := (innerLoop_link c.env.now 64 { c.dev with wake := none } a o []).2
-  have hIC := innerLoop_clientId c.env.now 64 { c.dev with wake := none } a o []
-  generalize innerLoop c.env.now 64 { c.dev with wake := none } a o [] = r at *
+  have hL := (innerLoop_link c.env.now (loopBound a) { c.dev with wake := none } a o []).2
+  have hIC := innerLoop_clientId c.env.now (loopBound a) { c.dev with wake := none } a o []
+  generalize innerLoop c.env.now (loopBound a) { c.dev with wake := none } a o [] = r at *
   have hr := ncl_cons_congr h hL hIC
   have ha' := ncl_cons_congr h ((advance_com r.act).trans hL) ((advance_clientId r.act).trans hIC)
   split
@@ -2082,8 +2082,8 @@ theorem spoken_rest_indep (c : CS) (o : Oracle) (a0 : Action) (rest rest' : List
   cases speaker c with
   | none => rfl
   | some a =>
-    show (innerLoop c.env.now 64 { ({ c.dev with acts := a0 :: rest' } : Dev) with wake := none } a o []).out
-      = (innerLoop c.env.now 64 { c.dev with wake := none } a o []).out
+    show (innerLoop c.env.now (loopBound a) { ({ c.dev with acts := a0 :: rest' } : Dev) with wake := none } a o []).out
+      = (innerLoop c.env.now (loopBound a) { c.dev with wake := none } a o []).out
     have e : ({ ({ c.dev with acts := a0 :: rest' } : Dev) with wake := none } : Dev)
         = { ({ c.dev with wake := none } : Dev) with acts := a0 :: rest' } := rfl
     rw [e, innerLoop_acts]; rfl
